@@ -735,6 +735,9 @@ def values_equal(a, b, rtol=1e-6, atol=1e-7) -> Optional[str]:
     if a.dtype != b.dtype:
         return f"dtype:{a.dtype}-vs-{b.dtype}"
     if ka in "fc":
+        if a.dtype == np.float16:  # one float16 ulp is 1e-3 relative
+            rtol = max(rtol, 4e-3)
+            atol = min(atol, -1e-3) if atol < 0 else max(atol, 1e-3)
         if atol < 0:  # negative: scale by the magnitude of the runtime array
             fin = np.abs(b[np.isfinite(b)]) if b.size else b
             atol = -atol * max(1.0, float(fin.max()) if fin.size else 1.0)
@@ -944,7 +947,8 @@ def c07_check_program(steps: list, sel: str, seed: int) -> dict:
                 is_legacy = steps[k_step]["op"] == "inline_legacy"
                 down_of = next((j for j in range(k_step - 1, -1, -1) if steps[j]["op"] == "inline_legacy"), None) \
                     if steps[k_step]["op"] not in ("const", "arg", "arg_default", "inline_legacy") else None
-                tol = LEGACY_TOL if (is_legacy or down_of is not None or steps[k_step]["op"] == "mlop") else {}
+                after_mlop = any(steps[j]["op"] == "mlop" for j in range(k_step + 1)) and steps[k_step]["op"] not in ("const", "arg", "arg_default")
+                tol = LEGACY_TOL if (is_legacy or down_of is not None or after_mlop) else {}
                 why = values_equal(v._get_value(), o, **tol)
                 if why and is_legacy:
                     try:
